@@ -68,7 +68,10 @@ class Property:
 
 
 def execute(P, cases, profile, exes):
-    impl = core.run_sharded(exes["impl_" + profile], cases, tag=P.id + ".impl", shards=P.shards)
+    if hasattr(P, "custom_impl"):
+        impl = P.custom_impl(cases, profile)
+    else:
+        impl = core.run_sharded(exes["impl_" + profile], cases, tag=P.id + ".impl", shards=P.shards)
     model = core.run_sharded(exes["model"], cases, extra_args=P.model_args(profile), tag=P.id + ".model", shards=P.shards)
     P._raw_impl = dict(zip(cases, impl))
     return [P.project(l) for l in impl], [P.project(l) for l in model]
@@ -130,6 +133,9 @@ def run_property(P, tier, seed, replay=None):
     except Broken as b:
         broken.append(("model-build", b.what, b.detail))
     for prof in P.profiles:
+        if hasattr(P, "custom_impl"):
+            exes["impl_" + prof] = "custom"
+            continue
         try:
             exes["impl_" + prof] = core.build_harness(prof, hooks=P.needs_hooks)
         except Broken as b:
